@@ -181,8 +181,14 @@ class C07(Plugin):
             return op
         if not lconts:
             return None
+        focus = run.cfg.get('focus_cls')
+        if focus and rng.random() < 0.7:
+            lconts = [t for t in lconts if t[1].__class__.__name__ == focus and (run.cfg.get('focus_field') in (None, t[2]) or rng.random() < 0.3)] or lconts
         path, node, f, n = rng.choice(lconts)
         a, b = O.gen_bounds(rng, n, 0.1)
+        if n >= 2 and rng.random() < 0.3:
+            # separator edge cases: everything but one element, the first or the last element alone
+            a, b = rng.choice([(0, n - 1), (1, n), (0, 1), (n - 1, n)])
         if kind == 'cut_vs_copy':
             return {'k': 'cut_vs_copy', 'path': [list(p) for p in path], 'field': f, 'start': a, 'stop': b, 'opts': opts,
                     'what': 'slice'}
@@ -326,6 +332,18 @@ class C07(Plugin):
                 run.stats['collateral_c12'] += 1
                 raise StopRun()
             return
+        if check_consistent(root) is not None:
+            # the cut left a tree that does not agree with its source.  Normally that is C01's business (collateral), but if
+            # DELETING the same range on a fresh tree leaves a consistent tree, then the cut did not leave what the delete
+            # leaves - which is this property's own clause
+            fork = fst.FST(ctx['src'], 'exec')
+            try:
+                self.delete(fork, op)
+                ok = check_consistent(fork) is None
+            except Exception:
+                ok = False
+            if ok and fork.src != root.src:
+                raise Violation('cut_leaves_other_than_delete', f'(remainder of the cut does not agree with its own source) cut={root.src[:400]!r} delete={fork.src[:400]!r}')
         run.core_after_ok(False)
         piece = out[1]
         run.stats['cuts'] += 1
